@@ -773,7 +773,16 @@ func runHarnessOnce(ld *Loaded, fn *ssa.Function, cfg *HarnessCfg, nworkers int,
 			if v, ok := cfg.Opts["timeout"]; ok {
 				fmt.Sscanf(v, "%d", &tmo)
 			}
-			sol, err := NewSolver(tt, tmo, mirrors, cfg.Opts["primary"])
+			mir := mirrors
+			if mo, ok := cfg.Opts["mirrors"]; ok {
+				// mirrors=none | z3 | cvc5 | z3,cvc5: per-harness choice of cross-check solvers (z3 4.8.12
+				// cannot digest several thousand definitions in reasonable time)
+				mir = nil
+				if mo != "none" {
+					mir = strings.Split(mo, ",")
+				}
+			}
+			sol, err := NewSolver(tt, tmo, mir, cfg.Opts["primary"])
 			if err != nil {
 				st.SolverErrors = append(st.SolverErrors, err.Error())
 				return
@@ -787,6 +796,17 @@ func runHarnessOnce(ld *Loaded, fn *ssa.Function, cfg *HarnessCfg, nworkers int,
 				}
 				m.runPath(fn, prefix)
 				ex.done()
+				if sol.Broken {
+					// a solver error on this path: its answers after the error were all "unknown"
+					// (inconclusive); start over with fresh processes and a fresh term table
+					st.Inconclusive++
+					m.note("solver reported an error; the rest of that path was inconclusive, solver restarted")
+					sol.Restart()
+					tt = NewTermTable()
+					m.tt = tt
+					sol.tt = tt
+					m.last = nil
+				}
 				if len(tt.terms) > 400000 {
 					// reset interning and the solver to bound memory
 					sol.Restart()
